@@ -224,7 +224,7 @@ def gen_mutations(a, rng, quick):
         for b in bounds:
             for d in (-2, -1, 0, 1, 2):
                 at(b + d)
-        for _ in range((100 if a.tiny else 40) if quick else 1000):
+        for _ in range((60 if a.tiny else 40) if quick else 1000):
             at(rng.randrange(n))
     ib = bounds if len(bounds) <= 10 or not quick else sorted(rng.sample(bounds, 10))
     for b in ib:
@@ -296,6 +296,15 @@ Definition hid (x : bytes) : bytes := x.
 def model_eval(ctx, a, cases, impl):
     """model verdict of the signed assertion's verifier on each mutated tiny file vs the direct verifier of the implementation"""
     f = a.f
+    if ctx.quick():          # one bit pattern per position is enough for the model side in the quick tier
+        seen, keep = set(), []
+        for c in cases:
+            k = (c["m"].get("pos"), c["m"]["k"] in ("set", "flip")) if c["m"]["k"] in ("set", "flip") else None
+            if k is None or k not in seen:
+                keep.append(c)
+                if k is not None:
+                    seen.add(k)
+        cases = keep
     prelude = PRELUDE + f"Definition base : bytes := {coq_bytes(f)}.\n"
     exprs, idx = [], []
     if a.kind == "data":
